@@ -22,35 +22,35 @@ P = {
  'C05': ('other', 'guard-dominance rules on the splitter + region-rule table checks',
          'Decides the mechanism clauses: split trigger shape, value independence of non-structural tokens, positive level only under CREATE/parenthesis, region rules typed outside Punctuation/Keyword.',
          'Not decided: the statement count k as a number for arbitrary scripts.', '3 C05'),
- 'C06': ('other', 'guarded-effect discipline on every mutation site of the layout filters',
-         'Every tree effect of a layout filter inserts whitespace, deletes a token proved whitespace by a dominating guard, or blanks a whitespace value; layout options enable only layout filters in a fixed order; serializer/lexer region tables compared.',
-         'Not decided: lexical fusion after whitespace deletion; statement-count equality of output.', '3 C06'),
+ 'C06': ('other', 'guarded-effect discipline on every mutation site of the layout filters; tree-API contract; statement-edge and operator-spacing table rules',
+         'Every tree effect of a layout filter inserts whitespace, deletes a token proved whitespace by a dominating guard, or blanks a whitespace value; insert_before/insert_after insert exactly the given token; layout options enable only layout filters in a fixed order; serializer/lexer region tables compared; removing a statement edge or spacing an operator cannot change how the text lexes (table evaluation).',
+         'Not decided: statement-count equality of arbitrary output; the open findings (serializer regions, GO boundary, "# ") are listed in known_findings.json.', '3 C06'),
  'C07': ('other', 'error discipline: raise inventory, option validation dataflow, nullness and bounds analysis',
          'Decides a discipline over all code reachable from the entry points: only SQLParseError raised, every option validated before use with total tests, possibly-None values tested before dereference, constant subscripts covered by guards or named invariants.',
          'Not decided: totality itself (run-time index values, memory).', '3 C07'),
- 'C08': ('other', 'stream-conservation path rules + finite-domain interpretation of the case filters on every token type + effect discipline of StripCommentsFilter',
-         'Decides which tokens each targeted filter may touch and how: the decision converted/untouched is computed for every token type of the lexer table.',
-         'Not decided: idempotence; case mappings that change length; fusion across group boundaries.', '3 C08'),
- 'C09': ('other', 'stack-discipline rules on _group_matching + table agreement + operand-kind evaluation',
-         'Decides the matcher shape, producibility of open/close tokens with exact types, pass order, and that joining passes cannot absorb a group\'s own delimiters.',
+ 'C08': ('other', 'stream-conservation path rules; AST interpretation of the case filters on every token type, of StripCommentsFilter.process on 1175 small token trees and of TruncateStringFilter.process on 11718 literals read back with the lexer rule',
+         'Which tokens each targeted filter touches and what it leaves: decided by evaluating the filter source (with every TokenList helper it calls) in the checker on enumerated small inputs and checking the post-condition of the property on each (comments gone, hints and other tokens kept in order, no fusion, second run changes nothing; truncated literal is again one literal).',
+         'Bounded: trees of up to 4 children per list plus the group shapes grouping builds; literals over 5 units up to length 5. Case mappings that change length are not examined.', '3 C08'),
+ 'C09': ('other', 'stack-discipline rules on _group_matching + table agreement + AST interpretation of _group/group_tokens on 144 small bracketed groups with synthetic passes',
+         'The matcher shape, producibility of open/close tokens with exact types, pass order; that the joining driver never takes a delimiter of the list it runs on into a new group and still groups when a delimiter is only looked at is decided by evaluating the driver source on enumerated groups.',
          'Not decided: equality with a reference matcher on arbitrary input.', '3 C09'),
- 'C10': ('other', 'structural preconditions: filter order, clause-keyword tables vs lexer output, two-sided spacing, fresh-object rule for inserted tokens',
-         'Only the structural preconditions of the normal forms.',
-         'Not decided: the normal forms and fixed points themselves (statements about output text).', '3 C10'),
+ 'C10': ('other', 'filter order and option implication; clause-keyword table vs lexer output; AST interpretation of StripWhitespaceFilter.process on 282 small token trees and of _stripws_default on 62 patterns; handler/table agreement; fresh-object rule',
+         'strip_whitespace normal form decided on enumerated small trees by evaluating the filter source (no edge whitespace, no run of two, parentheses tight); reindent: every clause keyword in every spelling the lexer emits is selected by the split lookup, each group handler recognises every delimiter word of its class; operator spacing two-sided.',
+         'Not decided: the reindent line structure on arbitrary statements (offsets/indent state); fixed-point property of reindent.', '3 C10'),
  'C11': ('other', 'normal-form agreement between matcher literals and lexer output (case, inner whitespace), vocabulary shadowing',
          'Every comparison of keyword text against a constant goes through a normal form erasing case and inner whitespace; multi-word rules use \\s+; neighbour lookups skip whitespace by containment.',
          'Not decided: equality of tree shapes under respelling as such.', '3 C11'),
  'C12': ('other', 'table agreement of name types + lookup discipline of accessors (thin)',
          'Necessary conditions only: quote removal, whitespace-insensitive lookups by containment, name-type sets agree, both alias forms handled.',
          'Not decided: which child an accessor selects (run-time shapes) -- the core of the property.', '3 C12'),
- 'C13': ('other', 'closing-keyword tables vs lexer vocabulary; accessor kind agreement (thin)',
-         'Closer tables against the statement and against what the lexer can emit; item filters; producible literals.',
+ 'C13': ('other', 'closing-keyword tables vs lexer vocabulary; accessor kind agreement; AST interpretation of get_identifiers on every token kind and of the joining driver on bracketed groups',
+         'Closer tables against the statement and against what the lexer can emit; item filters; producible typed literals; a typed literal directly behind "(" is still grouped (driver interpretation).',
          'Not decided: extents and contents on arbitrary queries.', '3 C13'),
  'C14': ('other', 'leftmost-first extent automata x specification DFA; dictionary/rule table agreement',
          'For every region kind and every body over the full alphabet the first matching rule is of the expected family and ends exactly at the terminator; dictionaries consulted in registration order case-insensitively; every dictionary word reachable as one token.',
          'Contexts limited to the delimiter classes listed; character classes sampled over BMP + astral representatives.', '3 C14'),
- 'C15': ('other', 'call-graph recursion containment under the single translating try; who-may-call rule on interpreter limits; non-recursive serialisation',
-         'RecursionError cannot escape the entry points: every recursive routine they can reach runs inside FilterStack.run\'s try whose handler raises SQLParseError; the package never changes the recursion limit; str()/flatten() of a returned statement do not recurse.',
+ 'C15': ('other', 'call-graph recursion containment under the single translating try; who-may-call rule on interpreter limits; non-recursive serialisation; translating guards on recursive accessors; state-leak inventory',
+         "RecursionError cannot escape the entry points: every recursive routine they can reach runs inside FilterStack.run's try whose handler raises SQLParseError; str()/flatten() of a returned statement do not recurse; every multi-function recursive accessor cycle passes through a call that translates RecursionError; a failed call writes no process-wide state (closure cells, class/module variables, lexer publication order).",
          'Not decided: C-level stack exhaustion, MemoryError, behaviour at specific limits.', '3 C15'),
  'C16': ('proof', 'EDA (exponential ambiguity) test on the NFA self-product of every lexer regex',
          'No rule of SQL_REGEX and no look-around sub-pattern is exponentially ambiguous or has an epsilon cycle; each obligation is one product-automaton emptiness check, all discharged; historical ReDoS regexes are positive controls.',
@@ -58,9 +58,9 @@ P = {
  'C17': ('other', 'transfer-table extraction by path enumeration + protocol evaluation on keyword skeletons + ordering rule on the driver loop',
          'The split-level protocol extracted from _change_splitlevel is balanced for each construct of the statement; closers the lexer emits agree with closers the table handles.',
          'Nesting checked to bounded depth; keywords used as identifiers not modelled.', '3 C17'),
- 'C18': ('other', 'accessor shape rules + keyword shadowing table agreement (thin)',
-         'Leading token found past whitespace and comments; answer is its normalised text; DML/DDL words reach get_type with that type.',
-         'Not decided: CTE walk result on arbitrary statements.', '3 C18'),
+ 'C18': ('other', 'matcher rules for the leading token; AST interpretation of Statement.get_type on 231 statement heads; keyword shadowing and dictionary-order table agreement',
+         'get_type decided on enumerated statement heads by evaluating its source: leading whitespace/comment prefixes x DML/DDL/other first tokens, WITH x eight shapes of CTE definitions x DML or none; DML/DDL words reach get_type with that type in every right context.',
+         'Open findings: keyword directly before "(" or "." is lexed as a name.', '3 C18'),
  'C19': ('other', 'who-may-decode ownership + parameter forwarding dataflow + CLI wiring + finite-domain interpretation of the option functions',
          'One decode point, encoding forwarded unchanged from every entry point, codecs as documented, CLI options validated and forwarded; for every flag combination the command line and format() build the same filter stack.',
          'Not decided: value equality of outputs; codec behaviour.', '3 C19'),
@@ -97,7 +97,7 @@ m = {
   {'name': 'rx', 'path': 'sa/rx.py', 'serves_properties': ['C01', 'C05', 'C14', 'C16'], 'kind_free_text': 'regex automata: width, first sets, EDA self-product, leftmost-first extent automaton, DFA kit'},
   {'name': 'cg/fx', 'path': 'sa/cg.py sa/fx.py', 'serves_properties': ['C02', 'C03', 'C06', 'C07', 'C08', 'C15', 'C20'], 'kind_free_text': 'name-based call graph with repo idioms X1-X3; effect extraction'},
   {'name': 'normalize', 'path': 'sa/normalize.py sa/baseline_funcs.json', 'serves_properties': sorted(P), 'kind_free_text': 'semantics-preserving normal form: new private helpers expanded at their call sites, new conditional expressions split, named guards substituted (identity on the pinned tree)'},
-  {'name': 'miniev/optmodel', 'path': 'sa/miniev.py sa/optmodel.py sa/kinds.py', 'serves_properties': ['C08', 'C09', 'C12', 'C13', 'C17', 'C18', 'C19'], 'kind_free_text': 'interpreter for small pure functions of the analysed source on finite enumerated domains (token kinds, option dictionaries, keyword skeletons)'},
+  {'name': 'miniev/optmodel', 'path': 'sa/miniev.py sa/optmodel.py sa/kinds.py', 'serves_properties': ['C03', 'C05', 'C06', 'C07', 'C08', 'C09', 'C10', 'C11', 'C12', 'C13', 'C17', 'C18', 'C19'], 'kind_free_text': 'interpreter for small pure functions of the analysed source on finite enumerated domains (token kinds, option dictionaries, keyword skeletons)'},
   {'name': 'paths', 'path': 'sa/astutil.py', 'serves_properties': sorted(P), 'kind_free_text': 'structured path enumeration, dominating guard facts, linear forms, copy propagation'},
  ],
  'checks': checks,
